@@ -32,7 +32,8 @@
  *   outputs tx:<K>.<code>.<mid>.<tok> (PDU handed to coap_dtls_send) req:<tok>:<payload> rsp:<tok>:<code> nack:<reason>:<tok>
  *           ev:<name> bye alert cookie
  *   state   st=<session state>,tls=<0|1>,dq=<delay queue>,ca=<con_active>,if=<send queue nodes>  or  gone
- * then " | wire n=<datagrams> clear=<not a DTLS record or written outside GnuTLS> app=<ct23 records> cleartext=<yes|no>"
+ * then " | wire n=<datagrams> clear=<not a DTLS record, written outside GnuTLS, or carrying a queued payload> app=<ct23 records>
+ *        prealert=<GnuTLS' version-less close_notify records> cleartext=<yes|no>"
  * and  " | hs c=<ok|fail|none> s=<ok|fail|none>"  (the handshake verdicts the oracle gave).
  */
 #include "sim_core.h"
@@ -258,7 +259,7 @@ void __wrap_coap_free_type(coap_memory_tag_t type, void *p) {
 }
 
 /* ------------------------------------------------------------------ the wire */
-static unsigned w_n, w_clear, w_app, w_app_before_ok;
+static unsigned w_n, w_clear, w_app, w_pre;
 static const sim_dgram_t *pending[512];
 static int npending;
 static char fate[600];
@@ -272,8 +273,11 @@ static int looks_dtls(const uint8_t *b, size_t n) {
     size_t l;
     if (n - i < 13) return 0;
     if (b[i] < 20 || b[i] > 25) return 0;
-    if (b[i + 1] != 0xfe || (b[i + 2] != 0xfd && b[i + 2] != 0xff)) return 0;
     l = ((size_t)b[i + 11] << 8) | b[i + 12];
+    /* GnuTLS writes the close_notify of a session that never negotiated a version with the TLS number 3.3 in an otherwise
+       DTLS-framed alert record (2 bytes): the TLS library's own, counted separately */
+    if (b[i] == 21 && b[i + 1] == 3 && b[i + 2] == 3 && l == 2 && 13 + l == n - i) { w_pre++; return 1; }
+    if (b[i + 1] != 0xfe || (b[i + 2] != 0xfd && b[i + 2] != 0xff)) return 0;
     if (13 + l > n - i) return 0;
     if (b[i] == 23) w_app++;
     i += 13 + l;
@@ -290,7 +294,7 @@ static void on_tx(const sim_dgram_t *d) {
   if (!looks_dtls(d->data, d->len)) bad = 1;
   if (!in_gnutls) bad = 1;                                   /* a socket write that did not come out of the TLS library */
   for (int i = 0; i < nq; i++) if (contains(d->data, d->len, q_payload[i], 8)) bad = 1;   /* a queued request's payload in clear */
-  if (bad) { w_clear++; OUT("CLEAR:%zu", d->len); }
+  if (bad) { w_clear++; OUT("CLEAR:%zu", d->len); if (getenv("H_HEX")) { for (size_t i = 0; i < d->len; i++) fprintf(stderr, "%02x", d->data[i]); fprintf(stderr, " in_gnutls=%d\n", in_gnutls); } }
   if (npending < 512) pending[npending++] = d;
 }
 static void tx_logger(const sim_dgram_t *d) { (void)d; }
@@ -565,7 +569,7 @@ static void step(char *line) {
   sim_reset();
   sim_log_enabled = 0;
   seg_len = 0; nsegs = 0; s_open = 0; if (seg_buf) seg_buf[0] = 0;
-  npending = 0; handled = 0; w_n = w_clear = w_app = 0; in_gnutls = 0;
+  npending = 0; handled = 0; w_n = w_clear = w_app = w_pre = 0; in_gnutls = 0;
   hs_verdict[0] = hs_verdict[1] = 'n';
   g_cs = NULL; g_cs_gone = 0; g_ep = NULL;
   sim_tx_hook = on_tx;
@@ -667,7 +671,7 @@ static void step(char *line) {
   for (unsigned i = 0; i < sim_ntx; i++) free(sim_tx[i].data);
   sim_ntx = 0;
   fputs(seg_len ? seg_buf : "-", stdout);
-  printf(" | wire n=%u clear=%u app=%u cleartext=%s | hs c=%s s=%s", w_n, w_clear, w_app, w_clear ? "yes" : "no",
+  printf(" | wire n=%u clear=%u app=%u prealert=%u cleartext=%s | hs c=%s s=%s", w_n, w_clear, w_app, w_pre, w_clear ? "yes" : "no",
          hs_verdict[0] == 'o' ? "ok" : hs_verdict[0] == 'f' ? "fail" : "none",
          hs_verdict[1] == 'o' ? "ok" : hs_verdict[1] == 'f' ? "fail" : "none");
 }
